@@ -140,13 +140,13 @@ def dialect_classes(src):
     # the function is interpreted for each dialect name (fail-closed AST interpreter): it must return a (lexer, parser) pair of fresh instances
     from .interp import Interp, Obj, Raised, Env
     imports = _imports(tree)
-    for st in ast.walk(fn):
-        if isinstance(st, ast.ImportFrom):
+    for st in ast.walk(tree):             # the classes are imported inside get_lexer_parser or inside helpers it calls
+        if isinstance(st, ast.ImportFrom) and st.module and st.level == 0:
             for a in st.names:
-                imports[a.asname or a.name] = (st.module, a.name)
+                imports.setdefault(a.asname or a.name, (st.module, a.name))
     for d in DIALECTS:
         try:
-            res = Interp().call_function(fn, [d], {}, Env())
+            res = Interp.for_file(src, file).call_function(fn, [d], {}, Env())
         except Raised:
             continue
         except AnalysisError:
